@@ -31,9 +31,12 @@ PROPS["C18"] = {
                     "porcupine and the brute-force checker are not wrong in the same way",
                     "the library's sequential results are the reference for the concurrent ones (their correctness is C01-C17)"],
     "units": [{
-        "pkg": "primitives/ed25519/extra/cache", "configs": {"quick": ["race"], "thorough": ["race", "race-purego"]},
+        # "race"/"race-purego": built with -race (the race detector is an oracle); "default": the same tests without
+        # instrumentation (~10x more repetitions per case at real-world timing; oracles: results, histories, invariants,
+        # runtime fatal errors).
+        "pkg": "primitives/ed25519/extra/cache", "configs": {"quick": ["race", "default"], "thorough": ["race", "race-purego", "default"]},
         "tests": {
-            "TestC18ModelSelf": LIST(),
+            "TestC18ModelSelf": LIST(configs=["race"]),
             "TestC18History": T(400, 20000, shards={"quick": 8, "thorough": 16}, shrinktime="15s"),
             "TestC18Workload": T(400, 20000, shards={"quick": 8, "thorough": 16}, shrinktime="15s"),
         },
